@@ -1293,6 +1293,7 @@ namespace bluetoe {
             void each()
             {
                 if ( !stoped_
+                    && Server::attribute_at( index_ ).uuid == bits( details::gatt_uuids::primary_service )
                     && ( starting_index_ != details::invalid_attribute_index && starting_index_ <= index_ )
                     && details::handle_index_mapping< Server >::handle_by_index( index_ ) <= ending_handle_ )
                 {
@@ -1589,7 +1590,8 @@ namespace bluetoe {
 
                     using mapping = details::handle_index_mapping< Server >;
 
-                    if ( filter_( index_, attr ) )
+                    // only primary services are to be discovered, not secondary services
+                    if ( attr.uuid == bits( details::gatt_uuids::primary_service ) && filter_( index_, attr ) )
                     {
                         found_ = iterator_.template operator()< Service >(
                             mapping::handle_by_index( index_ ),
